@@ -11,7 +11,7 @@ from .. import evaluation as E, evalenv, extract, trees as T, valgen as V
 from ..common import Ctx
 from . import _valcommon as VC
 
-MODULES = ["Ahbicht.Properties.C16"]
+MODULES = ["Ahbicht.Properties.C16", "Ahbicht.Properties.C16Full"]
 KANN = {"parts": [["KANN", "Kann", None]]}
 
 
@@ -41,6 +41,14 @@ def run(ctx: Ctx) -> None:
             else:
                 slots.append((kind, node))
         chosen = rng.sample(slots, min(len(slots), rng.randint(1, 5)))
+        # boundary counts inside one pool: every entry invalid / all but one / exactly the first or the last
+        pools = [node for kind, node, _ in V.walk(spec) if kind == "pool" and len(node["entries"]) >= 2]
+        if pools and rng.random() < 0.35:
+            pool = rng.choice(pools)
+            es = pool["entries"]
+            pick = rng.choice([es, es[1:], es[:-1], es[:1], es[-1:]])
+            chosen = [c for c in chosen if not any(c[1] is e for e in es)] + [("entry", e) for e in pick]
+            ctx.count("pool_boundary", "all" if len(pick) == len(es) else ("all but one" if len(pick) == len(es) - 1 else "one"))
         invalid_discs, invalid_entries = set(), 0
         for kind, node in chosen:
             bad_cond = rng.choice(V.INVALID_CONDS + ["([2] U [3]) O [501]", "[501] X ([2] O [3])"])
